@@ -523,4 +523,153 @@ theorem runMany_pairwise (g : GTree) (k : Nat) :
     have h2 := runMany_lower g k _ l hl a ha'
     omega
 
+/-! ## one mutex among many: the many-mutex machine with a constant `lockOf` is the
+    one-mutex machine -/
+
+theorem embed_setPhase (k : Nat) (sys : Sys S V) (t : Nat) (p : Phase S) :
+    (embed k sys).setPhase t p = embed k (sys.setPhase t p) := rfl
+
+theorem stepL_const (k : Nat) (locks : Wrapper → Bool) (sys : Sys S V) (t : Nat) :
+    stepL (fun _ => k) locks (embed k sys) t = embed k (step locks sys t) := by
+  have hset : ∀ (s : Sys S V) (h : Option Nat),
+      (embed k s).setHolder k h = embed k { s with holder := h } := by
+    intro s h
+    simp only [embed, SysL.setHolder]
+    congr 1
+    funext m
+    by_cases hm : m = k <;> simp [hm]
+  unfold stepL step
+  show (match sys.phase t with
+    | .stored => _
+    | .locked => _
+    | .loaded snap => _
+    | .idle => _) = _
+  cases hp : sys.phase t with
+  | stored => simp only [embed_setPhase, hset]
+  | locked => rfl
+  | loaded snap =>
+    simp only [embed]
+    cases hn : nextOp sys.core t with
+    | none => rfl
+    | some o => cases o <;> rfl
+  | idle =>
+    simp only
+    cases hn : nextOp sys.core t with
+    | none => simp only [embed, hn]
+    | some o =>
+      cases o with
+      | loc g => simp only [embed, hn]
+      | st w f =>
+        have he : nextOp (embed k sys).core t = some (Op.st w f) := hn
+        simp only [he]
+        by_cases hw : locks w = true
+        · simp only [hw, if_true]
+          have hh : (embed k sys).holder k = sys.holder := by simp [embed]
+          rw [hh]
+          cases hholder : sys.holder with
+          | none => simp only [embed_setPhase, hset]
+          | some x => rfl
+        · simp only [hw]; rfl
+
+theorem runL_const (k : Nat) (locks : Wrapper → Bool) (guardL : SysL S V → Nat → Bool)
+    (sched : List Nat) :
+    ∀ sys : Sys S V,
+      runL (fun _ => k) locks guardL sched (embed k sys) =
+        embed k (run locks (fun s t => guardL (embed k s) t) sched sys) := by
+  induction sched with
+  | nil => intro sys; rfl
+  | cons t sched ih =>
+    intro sys
+    simp only [runL, run, List.foldl_cons]
+    have h1 : gstepL (fun _ => k) locks guardL (embed k sys) t =
+        embed k (gstep locks (fun s t => guardL (embed k s) t) sys t) := by
+      unfold gstepL gstep
+      by_cases hg : guardL (embed k sys) t = true
+      · simp only [hg, if_true]; exact stepL_const k locks sys t
+      · simp only [hg]; rfl
+    rw [h1]
+    exact ih _
+
+theorem initL_eq_embed (k : Nat) (s0 : S) (ths : List (List (Op S V) × V)) :
+    initL s0 ths = embed k (init s0 ths) := by
+  simp only [initL, embed, init]
+  congr 1
+  funext m
+  by_cases hm : m = k <;> simp [hm]
+
+theorem resumeLockOf_one (restored : Nat) : resumeLockOf true restored = fun _ => 0 := by
+  funext t; simp [resumeLockOf]
+
+/-! ## resume level by level -/
+
+theorem resumeLevel_own {f : ResumeFacts} (hs : f.saves = true) (hr : f.restoresFirst = true)
+    (ha : f.setAlways = true) (m : Option (S → S)) (s : S) :
+    resumeLevel f m (some s) = .own (applyMod m s) := by
+  simp [resumeLevel, interruptCP, hs, hr, ha]
+
+theorem resumeLevel_none (f : ResumeFacts) (m : Option (S → S)) :
+    resumeLevel f m (none : Option S) = .inherited := by
+  unfold resumeLevel interruptCP
+  cases f.saves <;> rfl
+
+theorem visible_own : ∀ (l : List (Seen S)) (ctx : Option S) (i : Nat) (s : S),
+    l[i]? = some (.own s) → (visible ctx l)[i]? = some (some s) := by
+  intro l
+  induction l with
+  | nil => intro ctx i s h; simp at h
+  | cons x xs ih =>
+    intro ctx i s h
+    cases i with
+    | zero =>
+      simp only [List.getElem?_cons_zero, Option.some.injEq] at h
+      subst h; simp [visible]
+    | succ i =>
+      simp only [List.getElem?_cons_succ] at h
+      cases x with
+      | own s' => simp only [visible, List.getElem?_cons_succ]; exact ih _ i s h
+      | inherited => simp only [visible, List.getElem?_cons_succ]; exact ih _ i s h
+
+/-- the head of `visible` is the context for an inheriting level -/
+theorem visible_length : ∀ (l : List (Seen S)) (ctx : Option S), (visible ctx l).length = l.length := by
+  intro l
+  induction l with
+  | nil => intro ctx; rfl
+  | cons x xs ih => intro ctx; cases x <;> simp [visible, ih]
+
+theorem visible_inherited : ∀ (l : List (Seen S)) (ctx : Option S) (i : Nat),
+    l[i + 1]? = some .inherited → (visible ctx l)[i + 1]? = (visible ctx l)[i]? := by
+  intro l
+  induction l with
+  | nil => intro ctx i h; simp at h
+  | cons x xs ih =>
+    intro ctx i h
+    simp only [List.getElem?_cons_succ] at h
+    cases i with
+    | zero =>
+      cases xs with
+      | nil => simp at h
+      | cons y ys =>
+        simp only [List.getElem?_cons_zero, Option.some.injEq] at h
+        subst h
+        cases x <;> simp [visible]
+    | succ i =>
+      cases x with
+      | own s' => simp only [visible, List.getElem?_cons_succ]; exact ih _ i h
+      | inherited => simp only [visible, List.getElem?_cons_succ]; exact ih _ i h
+
+theorem resumePath_get (top sub : ResumeFacts) (lv : List (Option (S → S) × Option S)) (i : Nat)
+    (m : Option (S → S)) (a : Option S) (h : lv[i]? = some (m, a)) :
+    (resumePath top sub lv)[i]? = some (resumeLevel (if i = 0 then top else sub) m a) := by
+  cases lv with
+  | nil => simp at h
+  | cons x rest =>
+    cases i with
+    | zero =>
+      simp only [List.getElem?_cons_zero, Option.some.injEq] at h
+      subst h; simp [resumePath]
+    | succ i =>
+      simp only [List.getElem?_cons_succ] at h
+      obtain ⟨m0, a0⟩ := x
+      simp [resumePath, h]
+
 end EinoV.C11
